@@ -1,0 +1,44 @@
+//go:build verif
+
+// Contracts for the verification machinery in /verif (comment-only; no declarations).
+// C11 (client side of circuit relay v2): a reservation voucher is accepted only if its envelope validates under the
+// relay-reservation domain, its signer is the relay named in it and it was issued to this host; a circuit is reported
+// only after a STATUS/OK reply, and every failed attempt resets the hop stream and releases the message buffer.
+
+package client
+
+//@ func Reserve
+//@ prop C11
+//@ ensures result1 == nil ==> result0 != nil
+//@ ensures result1 == nil ==> called(ReadMsg, 0) && ret(ReadMsg, 0, 0) == nil && ret(GetType, 0, 0) == pbv2.HopMessage_STATUS &&
+//@         ret(GetStatus, 0, 0) == pbv2.Status_OK && ret(GetReservation, 0, 0) != nil
+//@ ensures result1 == nil && result0.Voucher != nil ==> called(ConsumeEnvelope, 0) && ret(ConsumeEnvelope, 0, 2) == nil &&
+//@         arg(ConsumeEnvelope, 0, 0) == ret(GetVoucher, 0, 0) && arg(ConsumeEnvelope, 0, 1) == proto.RecordDomain
+//@ ensures result1 == nil && result0.Voucher != nil ==> result0.Voucher == ret(ConsumeEnvelope, 0, 1) &&
+//@         typeis(ret(ConsumeEnvelope, 0, 1), *proto.ReservationVoucher)
+//@ ensures result1 == nil && result0.Voucher != nil ==> called(IDFromPublicKey, 0) && ret(IDFromPublicKey, 0, 1) == nil &&
+//@         arg(IDFromPublicKey, 0, 0) == ret(ConsumeEnvelope, 0, 0).PublicKey && ret(IDFromPublicKey, 0, 0) == result0.Voucher.Relay
+//@ ensures result1 == nil && result0.Voucher != nil ==> result0.Voucher.Peer == h.ID()
+//@ ensures result1 == nil && ret(GetVoucher, 0, 0) != nil ==> result0.Voucher != nil
+//@ ensures result1 != nil ==> result0 == nil
+//@ ensures called(NewStream, 0) && ret(NewStream, 0, 1) == nil ==> called(Close, 0) && arg(Close, 0, 0) == ret(NewStream, 0, 0)
+//@ noframe
+
+//@ func (c *Client) connect
+//@ prop C11
+//@ ensures result1 == nil ==> result0 != nil && result0.stream == s && called(ReadMsg, 0) && ret(ReadMsg, 0, 0) == nil &&
+//@         ret(GetType, 0, 0) == pbv2.HopMessage_STATUS && ret(GetStatus, 0, 0) == pbv2.Status_OK && called(WriteMsg, 0) && ret(WriteMsg, 0, 0) == nil
+//@ ensures result1 != nil ==> result0 == nil && ghost.reset(s)
+//@ ensures result1 == nil ==> (result0.stat.Limited <==> ret(GetLimit, 0, 0) != nil)
+//@ ensures called(ReserveMemory, 0) && ret(ReserveMemory, 0, 0) == nil ==> arg(ReserveMemory, 0, 1) == maxMessageSize &&
+//@         called(ReleaseMemory, 0) && arg(ReleaseMemory, 0, 1) == maxMessageSize && arg(Scope, 0, 0) == s && arg(Scope, 1, 0) == s &&
+//@         arg(ReserveMemory, 0, 0) == ret(Scope, 0, 0) && arg(ReleaseMemory, 0, 0) == ret(Scope, 1, 0)
+//@ ensures called(ReserveMemory, 0) && ret(ReserveMemory, 0, 0) != nil ==> result1 != nil && !called(ReleaseMemory, 0) && !called(WriteMsg, 0)
+//@ noframe
+
+// stop handler: a circuit is offered to Accept only after a well-formed CONNECT; otherwise the stream is reset or closed
+//@ func (c *Client) handleStreamV2
+//@ prop C11
+//@ ensures sent(c.incoming) ==> ret(ReadMsg, 0, 0) == nil && ret(GetType, 0, 0) == pbv2.StopMessage_CONNECT && ret(PeerToPeerInfoV2, 0, 1) == nil
+//@ ensures !sent(c.incoming) ==> ghost.reset(s) || (called(Close, 1) && arg(Close, 1, 0) == s)
+//@ noframe
